@@ -17,11 +17,31 @@ pred wfFilter(f *IPFilter) := f != nil && f.spec != nil && f.allowRanger != nil 
 pred wfFilters(fs *IPFilters) := fs != nil && (forall k int :: 0 <= k && k < len(fs.filters) ==> wfFilter(fs.filters[k]))
 pred allAllow(fs *IPFilters, ip string) := forall k int :: 0 <= k && k < len(fs.filters) ==> allows(fs.filters[k], ip)
 
+// (New itself stays trusted: that a ranger holding the listed networks decides by prefix is the library's. What is
+// verified is the list walk of its literal: every entry of an allow / block list that parses, as an address or as
+// a CIDR, is inserted - exactly one Insert per valid entry, into the ranger that is returned, none skipped or
+// merged - so the filter is a function of the whole list.)
+ghost var gIns int        // Insert calls made while building one ranger
+ghost var gInsInto int    // ... the ranger they went to (0: none yet, -1: different ones)
+ghost var gBad int        // entries that are neither an address nor a CIDR
 func New(spec *Spec) (f *IPFilter)
   trusted
   flag allocates
   requires spec != nil
   ensures fresh(f) && wfFilter(f) && f.spec == spec
+  closure[1] (ipcidrs []string) (r cidranger.Ranger)
+    flag allocates
+    modifies gIns, gInsInto, gBad
+    ensures every-entry-that-parses-is-inserted-none-is-skipped: gIns + gBad == len(ipcidrs)
+    ensures into-the-ranger-that-is-returned: r != nil && (gIns > 0 ==> gInsInto == ifaceVal(r))
+    ghost at entry: gIns := 0
+    ghost at entry: gBad := 0
+    ghost at entry: gInsInto := 0
+    ghost at call Insert: gInsInto := (gIns == 0 || gInsInto == ifaceVal(r) ? ifaceVal(r) : -1)
+    ghost at call Insert: gIns := gIns + 1
+    ghost at call ParseCIDR: gBad := gBad + (err != nil ? 1 : 0)
+    invariant[1] gIns + gBad == idx$1 && gIns >= 0 && gBad >= 0 && ranger != nil && ifaceVal(ranger) != 0 && (gIns > 0 ==> gInsInto == ifaceVal(ranger))
+  end
 
 func (f *IPFilter) Allow(ipstr string) (ok bool)
   requires wfFilter(f)
